@@ -121,10 +121,11 @@ def main():
             shutil.rmtree(dst)
     elif sys.argv[1] == "run":
         names = sys.argv[2:] or sorted(os.path.basename(p) for p in glob.glob(os.path.join(VERIF, "seeded", "*")))
-        for n in names:
-            m = evaluate(os.path.join(VERIF, "seeded", n), confirm=False)
-            own = m["property"] in m.get("detected_by", [])
-            print("%-10s %-4s own=%-5s detected_by=%s broken=%s" % (n, m["property"], own, m.get("detected_by"), m.get("analysis_broken")))
+        from concurrent.futures import ThreadPoolExecutor
+        with ThreadPoolExecutor(max_workers=6) as ex:
+            for n, m in zip(names, ex.map(lambda n: evaluate(os.path.join(VERIF, "seeded", n), confirm=False), names)):
+                own = m["property"] in m.get("detected_by", [])
+                print("%-10s %-4s own=%-5s detected_by=%s broken=%s" % (n, m["property"], own, m.get("detected_by"), m.get("analysis_broken")))
 
 
 if __name__ == "__main__":
